@@ -144,6 +144,11 @@ def r3_start_time(ctx, cfg='A'):
         ctx.check(ok, 'start-time-operand', 'Builder::build sets the clock to the configured start time', s.where(), show(t))
         # on every returning path
         ctx.check(all(f.dominates(s.b, r) for r in f.return_blocks()), 'start-time-all-paths', 'the start-time write is on every returning path of Builder::build', s.where())
+        # ... and only while holding the process-wide simulation lock (another runtime may be inside a handler on another thread)
+        locks = [c for c in f.calls() if c.name.split('::')[-1] in ('try_lock', 'lock') and
+                 any(x == ('static', 'des::runtime::builder::SIMULATION_LOCK') for x in walk(f.expr_operand(c.args[0], c.b, 'T')))]
+        ctx.check(bool(locks) and any(f.dominates(c.b, s.b) and c.b != s.b for c in locks), 'clock-reset-under-lock',
+                  'Builder::build resets the clock only after acquiring the simulation lock (otherwise a runtime running on another thread sees its clock jump inside a handler)', s.where())
 
 
 def _field_init_from_start(P, ctor_key, field):
